@@ -206,12 +206,25 @@ def led_render(histories: list[list[dict]], runtime: bool) -> Script:
             act, a = c["act"], c["a"]
             if act in ("on", "off", "toggle"):
                 s.add(f"{name}.{act}()")
+            elif act == "set_brightness" and s.routing == "lit" and not s.fnq and 0 <= a[0] < 255:
+                # a name-free expression with a fractional value: an integer-valued argument takes int(value) (the host class and the
+                # emitted C++ both truncate), whether the transpiler folds the expression or not
+                s.add(f"{name}.set_brightness({2 * a[0] + 1} * 0.5)")
             elif act == "set_brightness":
                 s.add(f"{name}.set_brightness({s.val(a[0])})")
             elif act == "blink":
                 s.add(f"{name}.blink({s.val(a[0])}, {s.val(a[1])})")
             elif act in ("fade_in", "fade_out"):
                 s.add(f"{name}.{act}({s.val(a[0])}, {s.val(a[1])})")
+            elif act == "flash_pattern" and s.routing not in ("lit", "rt") and c["p"]:
+                # the pattern is passed BY NAME, and the list is changed in place after the call (Python: no effect on the call that
+                # has already run; the name-based renderings of C03 use one variable per call)
+                s.nvar += 1
+                pv = f"pv{s.nvar}"
+                d = s.val(a[0])
+                s.lines.append(f"{pv} = {list(c['p'])!r}")
+                s.add(f"{name}.flash_pattern({pv}, {d})" if s.nvar % 2 else f"{name}.flash_pattern(pattern={pv}, delay_ms={d})")
+                s.lines += [f"{pv}.append(1)", f"{pv}.remove({list(c['p'])[0]!r})"]
             elif act == "flash_pattern":
                 s.add(f"{name}.flash_pattern({list(c['p'])!r}, {s.val(a[0])})")
             else:
